@@ -44,3 +44,22 @@ pub fn segment(mut idx: u64, sizes: &[u64]) -> Option<(usize, u64)> {
     }
     None
 }
+
+/// Write small valid wire inputs of every type (deterministic encoding of generator output for a
+/// few fixed tapes) into `dir`: seed corpus for the libFuzzer `bytes` target.
+pub fn dump_corpus(_p: &Property, dir: &std::path::Path) {
+    use crate::gen::Faults;
+    let _ = std::fs::create_dir_all(dir);
+    for t in types::all_types() {
+        for k in 0..3u8 {
+            let tape: Vec<u8> = (0..96u32).map(|i| (i as u8).wrapping_mul(37).wrapping_add(k.wrapping_mul(101)) >> (k % 3)).collect();
+            let mut g = crate::tape::Gen::new(&tape);
+            let item = types::gen_for_shape(&mut g, t.shape, &mut Faults::none());
+            let b = crate::cbor::encode(&item);
+            if b.len() <= 200 && (t.dec)(&b).is_ok() {
+                let name = format!("{}-{:016x}", t.name.replace(|c: char| !c.is_ascii_alphanumeric(), "_"), crate::run::hash_bytes(&b));
+                let _ = std::fs::write(dir.join(name), &b);
+            }
+        }
+    }
+}
